@@ -231,7 +231,8 @@ class Emulsion(list):
             force_consistency (bool, optional):
                 Whether to ensure that all droplets are of the same type
         """
-        for droplet in droplets:
+        # copy the sequence first since `droplets` might be the emulsion itself
+        for droplet in list(droplets):
             self.append(droplet, copy=copy, force_consistency=force_consistency)
 
     def append(
